@@ -85,6 +85,7 @@ class VDict:
     def __init__(self, d=None):
         self.d = dict(d or {})
         self.owner = None
+        self.default_factory = None      # collections.defaultdict
 
     def __repr__(self):
         return '{%s}' % ', '.join('%r: %s' % (k, vrepr(v)) for k, v in self.d.items())
@@ -766,12 +767,35 @@ class Executor:
                     obj.items[i] = x
                 self._mutated(obj, 'setitem')
                 return
-            if isinstance(k, tuple) and len(k) == 2 and all(isinstance(x, int) for x in k) and isinstance(obj.items[k[0]], VList):
-                obj.items[k[0]].items[k[1]] = v
+            if isinstance(k, tuple) and len(k) >= 1 and all(isinstance(x, int) and not isinstance(x, bool) for x in k):
+                a = obj
+                try:
+                    for x in k[:-1]:
+                        a = a.items[x]
+                        if not isinstance(a, VList):
+                            raise PyRaise('IndexError', 'too many indices for array')
+                    if isinstance(a.items[k[-1]], VList) and not isinstance(v, VList):
+                        raise Unsupported('assignment of a scalar to a sub-array')
+                    a.items[k[-1]] = v
+                except IndexError:
+                    raise PyRaise('IndexError', 'index %r out of range' % (k,))
                 self._mutated(obj, 'setitem')
                 return
             if isinstance(k, tuple) and len(k) == 2 and isinstance(k[0], int) and isinstance(k[1], slice) and isinstance(obj.items[k[0]], VList):
                 return self.setitem(obj.items[k[0]], k[1], v)
+            if isinstance(k, VList) and k.kind == 'ndarray' and len(k.items) == len(obj.items) and is_scalar(exact(v)) and k.items \
+                    and all(isinstance(i, (bool, VList)) or (isinstance(i, z3.ExprRef) and z3.is_bool(i)) for i in k.items):
+                # boolean-mask assignment arr[mask] = scalar
+                for i, m in enumerate(k.items):
+                    if isinstance(m, VList):
+                        self.setitem(obj.items[i], m, v)
+                    elif isinstance(m, bool):
+                        if m:
+                            obj.items[i] = v
+                    else:
+                        obj.items[i] = z3.If(m, to_real(exact(v)), to_real(exact(obj.items[i])))
+                self._mutated(obj, 'setitem')
+                return
             if is_sym(k) and is_scalar(exact(v)) and all(is_scalar(exact(i)) for i in obj.items):
                 kz = to_z3(k)
                 if not z3.is_int(kz):
@@ -918,6 +942,20 @@ class Executor:
             last = i == len(e.values) - 1
             if last:
                 return v
+            if isinstance(v, z3.ExprRef) and z3.is_bool(v):
+                # boolean operands read from plain names / subscripts / attributes: no fork, a or b == Or(a, b)
+                def simple(n):
+                    return isinstance(n, (ast.Name, ast.Constant)) or (isinstance(n, ast.Attribute) and simple(n.value)) \
+                        or (isinstance(n, ast.Subscript) and simple(n.value) and simple(n.slice)) or (isinstance(n, ast.Tuple) and all(simple(c) for c in n.elts))
+                rest = e.values[i + 1:]
+                if all(simple(n) for n in rest):
+                    try:
+                        vals = [self.eval(n, env, mod) for n in rest]
+                    except PyRaise:
+                        vals = None
+                    if vals is not None and all(isinstance(w, bool) or (isinstance(w, z3.ExprRef) and z3.is_bool(w)) for w in vals):
+                        zs = [v] + [z3.BoolVal(w) if isinstance(w, bool) else w for w in vals]
+                        return z3.simplify(z3.Or(zs) if isinstance(e.op, ast.Or) else z3.And(zs))
             t = self.truth(v)
             if isinstance(e.op, ast.And) and not t:
                 return v
@@ -970,6 +1008,10 @@ class Executor:
         # numpy-style elementwise on ndarray-kind lists
         if isinstance(a, VList) and a.kind == 'ndarray' or isinstance(b, VList) and b.kind == 'ndarray':
             if isinstance(a, VList) and isinstance(b, VList):
+                if len(a.items) != len(b.items) and len(a.items) == 1:
+                    return VList([self.binop(op, a.items[0], y) for y in b.items], 'ndarray')     # numpy broadcasting of a length-1 axis
+                if len(a.items) != len(b.items) and len(b.items) == 1:
+                    return VList([self.binop(op, x, b.items[0]) for x in a.items], 'ndarray')
                 if len(a.items) != len(b.items):
                     raise PyRaise('ValueError', 'shape mismatch')
                 return VList([self.binop(op, x, y) for x, y in zip(a.items, b.items)], 'ndarray')
@@ -1081,6 +1123,13 @@ class Executor:
                 o = b if isinstance(a, Tm) else a
                 if not t.attrs.get('__maybe_' + type(o).__name__ + '__', True) and False:
                     pass
+            if name in ('Eq', 'NotEq'):
+                # == on opaque values is modelled as an equivalence: reflexive, symmetric (one atom per unordered pair)
+                if a is b:
+                    return name == 'Eq'
+                ra, rb = sorted([vrepr(a), vrepr(b)])
+                r = named_bool('cmp:Eq(%s, %s)' % (ra, rb))
+                return r if name == 'Eq' else z3.Not(r)
             r = named_bool('cmp:%s(%s, %s)' % (name, vrepr(a), vrepr(b)))
             return r
         if a is None or b is None or isinstance(a, str) or isinstance(b, str):
@@ -1262,8 +1311,14 @@ class Executor:
             return PyFn(table[name], 'list.' + name)
         if name in getattr(obj, 'attrs', {}):
             return obj.attrs[name]
-        if name == 'shape' and obj.kind == 'ndarray':
-            return (len(obj.items),)
+        if name == 'data' and obj.kind == 'ndarray':
+            return obj            # the underlying buffer of a (masked) array: same entries, shared
+        if name in ('shape', 'ndim') and obj.kind == 'ndarray':
+            shp, a = [], obj
+            while isinstance(a, VList):
+                shp.append(len(a.items))
+                a = a.items[0] if a.items else None
+            return tuple(shp) if name == 'shape' else len(shp)
         raise Unsupported('list attribute %s' % name)
 
     def dict_method(self, obj, name):
@@ -1351,6 +1406,24 @@ class Executor:
                 return self._sym_index(obj.items, k)
             if isinstance(k, tuple) and len(k) == 2 and isinstance(k[0], int) and isinstance(obj.items[k[0]], VList):
                 return self.getitem(obj.items[k[0]], k[1])
+            if isinstance(k, tuple) and k and all(x is None or isinstance(x, int) and not isinstance(x, bool) or
+                                                  (isinstance(x, slice) and all(y is None or isinstance(y, int) for y in (x.start, x.stop, x.step))) for x in k):
+                # numpy basic indexing of a (nested) array: ints select, slices restrict an axis, numpy.newaxis adds a singleton axis
+                def nd(a, ks):
+                    if not ks:
+                        return a
+                    k0 = ks[0]
+                    if k0 is None:
+                        return VList([nd(a, ks[1:])], 'ndarray')
+                    if not isinstance(a, VList):
+                        raise PyRaise('IndexError', 'too many indices for array')
+                    if isinstance(k0, slice):
+                        return VList([nd(x, ks[1:]) for x in a.items[k0]], 'ndarray')
+                    try:
+                        return nd(a.items[k0], ks[1:])
+                    except IndexError:
+                        raise PyRaise('IndexError', 'index %r out of range' % (k0,))
+                return nd(obj, list(k))
             if isinstance(k, Tm):
                 return Tm('getitem', obj, k)
             if isinstance(k, (VList, list)) and all(isinstance(i, int) and not isinstance(i, bool) for i in (k.items if isinstance(k, VList) else k)):
@@ -1366,6 +1439,9 @@ class Executor:
             if isinstance(k, (Tm, z3.ExprRef)):
                 raise Unsupported('symbolic dict key')
             if k not in obj.d:
+                if obj.default_factory is not None:
+                    obj.d[k] = self.call(obj.default_factory, [], {})
+                    return obj.d[k]
                 raise PyRaise('KeyError', repr(k))
             return obj.d[k]
         if isinstance(obj, Tm):
@@ -1436,7 +1512,9 @@ class Executor:
         if mi is not None:
             return self.module_global(mi, name)
         # sub-module e.g. numpy.random / scipy.special
-        if mref.name.split('.')[0] in ('numpy', 'scipy', 'np', 'os', 'math', 'sys', 'nlopt', 'demes', 'functools', 'operator', 'logging', 'itertools'):
+        if mref.name.split('.')[0] in ('numpy', 'scipy', 'np', 'os', 'math', 'sys', 'nlopt', 'demes', 'functools', 'operator', 'logging', 'itertools', 'collections'):
+            if name == 'newaxis' and mref.name in ('numpy', 'np'):
+                return None
             lib = self.lib_attr(mref.name, name)
             if lib is not None:
                 return lib
@@ -1507,6 +1585,8 @@ class Executor:
                 return self.builtins['abs']
             if name == 'pi':
                 return z3.Real('pi')
+            if name == 'newaxis':
+                return None
             if name == 'inf':
                 return Tm('float:inf')
             if name in ('ma', 'random', 'linalg'):
@@ -1520,6 +1600,45 @@ class Executor:
                 return PyFn(lambda x, _n=name: False if is_scalar(exact(x)) else Tm('call:lib:numpy.' + _n, x), 'numpy.' + name)
             if name == 'atleast_1d':
                 return PyFn(lambda x: VList([x], 'ndarray') if is_scalar(exact(x)) else self.np_array(x), 'numpy.atleast_1d')
+            if name == 'ndindex':
+                def ndindex(*shape):
+                    if len(shape) == 1 and isinstance(shape[0], (tuple, VList)):
+                        shape = tuple(self.iterate(shape[0]))
+                    if not all(isinstance(n_, int) for n_ in shape):
+                        raise Unsupported('symbolic ndindex')
+                    import itertools as _it
+                    return VList([tuple(t) for t in _it.product(*[range(n_) for n_ in shape])])
+                return PyFn(ndindex, 'numpy.ndindex')
+            if name in ('trapz', 'trapezoid'):
+                def trapz_(y, x=None, dx=1, axis=-1, _n=name):
+                    """axiom (numpy docs): composite trapezoid rule along the last axis, sum_j d_j (y_j + y_{j+1})/2 with d = diff(x), or dx (scalar or array)"""
+                    def leaves_scalar(v):
+                        return all(leaves_scalar(i) if isinstance(i, VList) else is_scalar(exact(i)) for i in v.items)
+                    if not (isinstance(y, VList) and axis == -1 and leaves_scalar(y) and (x is None or (isinstance(x, VList) and leaves_scalar(x)))):
+                        return Tm('call:lib:numpy.' + _n, y, *([x] if x is not None else []), *([('kw', 'dx', dx)] if x is None else []))
+                    if x is not None:
+                        xi = self.iterate(x)
+                        d = [self.binop(ast.Sub(), xi[j + 1], xi[j]) for j in range(len(xi) - 1)]
+                    elif isinstance(dx, VList):
+                        d = list(dx.items)
+                    else:
+                        d = None
+
+                    def last(v):
+                        if v.items and isinstance(v.items[0], VList):
+                            return VList([last(i) for i in v.items], 'ndarray')
+                        m = len(v.items)
+                        dd = d if d is not None else [dx] * (m - 1)
+                        if len(dd) != m - 1:
+                            raise PyRaise('ValueError', 'operands could not be broadcast together')
+                        r = 0
+                        for j in range(m - 1):
+                            r = self.binop(ast.Add(), r, self.binop(ast.Div(), self.binop(ast.Mult(), dd[j], self.binop(ast.Add(), v.items[j], v.items[j + 1])), 2))
+                        return r
+                    return last(y)
+                return PyFn(trapz_, 'numpy.trapezoid')
+            if name == 'asanyarray':
+                return PyFn(lambda x, *a, **k: x if isinstance(x, VList) and x.kind == 'ndarray' else self.np_array(x, **k), 'numpy.asanyarray')
             if name == 'asarray' or name == 'array':
                 return PyFn(lambda x, *a, **k: self.np_array(x, **k), 'numpy.' + name)
             if name == 'any':
@@ -1534,8 +1653,36 @@ class Executor:
                         return VList([self.binop(ast.Sub(), x.items[i + 1], x.items[i]) for i in range(len(x.items) - 1)], 'ndarray')
                     return Tm('call:numpy.diff', x, *a)
                 return PyFn(diff, 'numpy.diff')
+            if name in ('logical_or', 'logical_and', 'logical_xor', 'logical_not'):
+                def logical(*xs, _n=name):
+                    def one(*v):
+                        if any(isinstance(i, VList) for i in v):
+                            m = max(len(i.items) for i in v if isinstance(i, VList))
+                            cols = [i.items if isinstance(i, VList) else [i] * m for i in v]
+                            if any(len(c) != m for c in cols):
+                                raise PyRaise('ValueError', 'operands could not be broadcast together')
+                            return VList([one(*t) for t in zip(*cols)], 'ndarray')
+                        v = [exact(i) for i in v]
+                        if any(isinstance(i, Tm) for i in v):
+                            return Tm('call:numpy.' + _n, *v)
+                        if all(isinstance(i, (bool, int, Fraction)) for i in v):
+                            bs = [bool(i) for i in v]
+                            return {'logical_or': lambda: bs[0] or bs[1], 'logical_and': lambda: bs[0] and bs[1],
+                                    'logical_xor': lambda: bs[0] != bs[1], 'logical_not': lambda: not bs[0]}[_n]()
+                        zs = [z3.BoolVal(bool(i)) if isinstance(i, (bool, int, Fraction)) else (i if z3.is_bool(i) else i != 0) for i in v]
+                        return z3.simplify({'logical_or': lambda: z3.Or(zs), 'logical_and': lambda: z3.And(zs),
+                                            'logical_xor': lambda: z3.Xor(zs[0], zs[1]), 'logical_not': lambda: z3.Not(zs[0])}[_n]())
+                    return one(*xs)
+                return PyFn(logical, 'numpy.' + name)
             if name == 'where':
                 def where(c, a, b):
+                    if isinstance(c, VList):
+                        m = len(c.items)
+                        ai = a.items if isinstance(a, VList) else [a] * m
+                        bi = b.items if isinstance(b, VList) else [b] * m
+                        if len(ai) != m or len(bi) != m:
+                            raise PyRaise('ValueError', 'operands could not be broadcast together')
+                        return VList([where(ci, x, y) for ci, x, y in zip(c.items, ai, bi)], 'ndarray')
                     if isinstance(c, bool):
                         return a if c else b
                     if isinstance(c, z3.ExprRef) and is_scalar(exact(a)) and is_scalar(exact(b)):
@@ -1560,8 +1707,30 @@ class Executor:
                 return PyFn(lambda shape, *a, _n=name, **k: self.np_alloc(_n, shape), 'numpy.' + name)
             if name == 'sum':
                 return PyFn(lambda x, *a, **k: self.np_sum(x, *a, **k), 'numpy.sum')
+            if name == 'arange':
+                def arange(*a, **k):
+                    a = [exact(x) for x in a]
+                    if not all(isinstance(x, (int, Fraction)) and not isinstance(x, bool) for x in a):
+                        return Tm('call:numpy.arange', *a)
+                    lo, hi, st = (0, a[0], 1) if len(a) == 1 else (a[0], a[1], 1) if len(a) == 2 else a
+                    out, x = [], lo
+                    while (st > 0 and x < hi) or (st < 0 and x > hi):
+                        out.append(int(x) if int(x) == x else x)
+                        x = x + st
+                    return VList(out, 'ndarray')
+                return PyFn(arange, 'numpy.arange')
             if name in ('minimum', 'maximum'):
                 return PyFn(lambda a, b, _n=name: self.minmax(_n[:3], [a, b]), 'numpy.' + name)
+        if modname in ('numpy.ma', 'np.ma') and name == 'masked_array':
+            def masked_array(x, *a, **k):
+                def cp(v):
+                    return VList([cp(i) for i in v.items], 'ndarray') if isinstance(v, VList) else v
+                if isinstance(x, VList) and not a and not k:
+                    return cp(x)      # a fresh array with the same entries (its .data is itself, nothing masked)
+                return Tm('call:numpy.ma.masked_array', x, *a)
+            return PyFn(masked_array, 'numpy.ma.masked_array')
+        if modname in ('numpy.ma', 'np.ma') and name == 'sum':
+            return PyFn(lambda x, *a, **k: self.np_sum(x, *a, **k), 'numpy.ma.sum')
         if modname in ('numpy.random', 'np.random') and name == 'uniform':
             def uniform(low=0, high=1, size=None):
                 if not isinstance(size, int) or low != 0 or high != 1:
@@ -1597,9 +1766,31 @@ class Executor:
                     return getattr(_m, _n)(x)
                 raise Unsupported('math.%s of a symbolic value' % _n)
             return PyFn(rnd, 'math.' + name)
+        if root == 'collections' and name == 'defaultdict':
+            def defaultdict(factory=None):
+                d = VDict()
+                d.default_factory = factory
+                return d
+            return PyFn(defaultdict, 'collections.defaultdict')
         if root == 'itertools' and name == 'combinations':
             import itertools as _it
             return PyFn(lambda seq, r: VList([tuple(c) for c in _it.combinations(self.iterate(seq), int(r))]), 'itertools.combinations')
+        if root == 'functools' and name == 'reduce':
+            def reduce_(ex, f, seq, *init):
+                items = list(ex.iterate(seq))
+                if init:
+                    acc = init[0]
+                elif items:
+                    acc = items.pop(0)
+                else:
+                    raise PyRaise('TypeError', 'reduce() of empty iterable with no initial value')
+                for x in items:
+                    acc = ex.call(f, [acc, x], {})
+                return acc
+            return PyFn(reduce_, 'functools.reduce', wants_ex=True)
+        if root == 'operator' and name in ('add', 'mul', 'sub'):
+            node = {'add': ast.Add(), 'mul': ast.Mult(), 'sub': ast.Sub()}[name]
+            return PyFn(lambda a, b, _n=node: self.binop(_n, a, b), 'operator.' + name)
         if root == 'functools' and name == 'partial':
             def partial(f, *a, **k):
                 return PyFn(lambda ex, *a2, **k2: ex.call(f, list(a) + list(a2), dict(k, **k2)), 'partial', wants_ex=True)
@@ -1635,6 +1826,31 @@ class Executor:
         return mk(shape)
 
     def np_sum(self, x, *a, **k):
+        axis = a[0] if a else k.get('axis')
+        if isinstance(x, VList) and isinstance(axis, int) and not isinstance(axis, bool) and len(a) <= 1 and set(k) <= {'axis'}:
+            nd_, a_ = 0, x
+            while isinstance(a_, VList):
+                nd_ += 1
+                a_ = a_.items[0] if a_.items else None
+            ax = axis + nd_ if axis < 0 else axis
+            if not 0 <= ax < nd_:
+                raise PyRaise('ValueError', 'axis %d is out of bounds for array of dimension %d' % (axis, nd_))
+
+            def red(v, ax_):
+                if ax_ == 0:
+                    if not v.items:
+                        return 0
+                    r = v.items[0]
+                    for i in v.items[1:]:
+                        r = self.binop(ast.Add(), r, i)
+                    return r
+                return VList([red(i, ax_ - 1) for i in v.items], 'ndarray')
+            return red(x, ax)
+        if isinstance(x, VList) and x.kind == 'ndarray' and not a and not k and x.items and all(isinstance(i, VList) for i in x.items):
+            r = 0
+            for i in x.items:
+                r = self.binop(ast.Add(), r, self.np_sum(i))
+            return r
         if isinstance(x, (tuple, VList)) and not a and not k:
             items = x.items if isinstance(x, VList) else x
             if all(is_scalar(exact(i)) for i in items):
@@ -1680,6 +1896,10 @@ class Executor:
         if len(vals) == 2 and any(isinstance(v, VList) for v in vals):
             a, b = vals
             if isinstance(a, VList) and isinstance(b, VList):
+                if len(a.items) != len(b.items) and len(a.items) == 1:
+                    return VList([self.binop(op, a.items[0], y) for y in b.items], 'ndarray')     # numpy broadcasting of a length-1 axis
+                if len(a.items) != len(b.items) and len(b.items) == 1:
+                    return VList([self.binop(op, x, b.items[0]) for x in a.items], 'ndarray')
                 if len(a.items) != len(b.items):
                     raise PyRaise('ValueError', 'shape mismatch')
                 return VList([self.minmax(which, [x, y]) for x, y in zip(a.items, b.items)], 'ndarray')
@@ -1766,14 +1986,19 @@ class Executor:
         def _enumerate(x, start=0):
             return VList(list(enumerate(ex.iterate(x), start)))
 
-        def _float(x):
+        def _float(x=0):
             if isinstance(x, Tm):
                 return Tm('call:float', x)
             if isinstance(x, str):
                 return exact(float(x))
             return x
 
-        def _int(x):
+        def _int(x=0):
+            if isinstance(x, str):
+                try:
+                    return int(x)
+                except ValueError as e:
+                    raise PyRaise('ValueError', str(e))
             if isinstance(x, Tm):
                 return Tm('call:int', x)
             if is_num(x):
@@ -1815,6 +2040,20 @@ class Executor:
             if not k.get('key') and all(isinstance(i, tuple) and i and is_num(i[0]) for i in items) and len({i[0] for i in items}) == len(items):
                 # tuples ordered by distinct concrete first components: the remaining components never get compared
                 return VList(sorted(items, key=lambda t: t[0], reverse=bool(k.get('reverse', False))))
+            if k.get('key'):
+                def concrete(v):
+                    v = exact(v)
+                    if isinstance(v, tuple):
+                        return tuple(concrete(c) for c in v)
+                    if is_num(v) or isinstance(v, str) or v is None:
+                        return v
+                    raise Unsupported('sorted with a symbolic key')
+                keyed = [(concrete(ex.call(k['key'], [i], {})), n, i) for n, i in enumerate(items)]
+                try:
+                    keyed.sort(key=lambda t: t[0], reverse=bool(k.get('reverse', False)))
+                except TypeError as e:
+                    raise PyRaise('TypeError', str(e))
+                return VList([i for _, _, i in keyed])
             raise Unsupported('sorted of symbolic values')
 
         def _reversed(x):
@@ -1864,7 +2103,7 @@ class Executor:
                     continue
                 kept.append(v)
             return VList(kept, 'set')
-        b = dict(set=_set, len=_len, range=_range, abs=_abs, min=_min, max=_max, sum=_sum, list=_list, tuple=_tuple,
+        b = dict(slice=lambda *a: slice(*[exact(x) for x in a]), set=_set, len=_len, range=_range, abs=_abs, min=_min, max=_max, sum=_sum, list=_list, tuple=_tuple,
                  dict=_dict, zip=_zip, enumerate=_enumerate, float=_float, int=_int, bool=_bool,
                  isinstance=_isinstance, hasattr=_hasattr, getattr=_getattr, print=_print, sorted=_sorted,
                  reversed=_reversed, str=_str, map=_map, callable=_callable, any=_any, all=_all, round=_round)
